@@ -35,7 +35,7 @@ ASSUMPTIONS = []
 # rules whose verdict does not depend on how the statements are arranged (semantic analyses); all other rules are shape rules:
 # when one of those fails in a function that was restructured relative to reference/signatures.json the verdict is "cannot decide"
 ROBUST = ('OWN/write', 'OWN/return', 'FRAME', 'PAIR/total-then-notes')
-FLOORS = {'OWN': 30, 'FRAME': 4, 'ROUND': 3, 'SITE': 5, 'PAIR': 4, 'ESC': 5}
+FLOORS = {'OWN': 30, 'FRAME': 6, 'ROUND': 3, 'SITE': 5, 'PAIR': 4, 'ESC': 5}
 
 DOCUMENTED = {'MultipleTimeSignatureError', 'MultipleTempoError', 'BadTimeSignatureError', 'NegativeTimeError'}
 FIELD_SOURCE = {'quantized_start_step': 'start_time', 'quantized_end_step': 'end_time', 'quantized_step': 'time',
@@ -386,6 +386,14 @@ def single_explicit(ctx):
       ctx.ob('FRAME/single-at-zero', fi, st, ok, 'the stored %s[0] is kept and its time set to 0' % cont.attr if ok else
              'the %s element kept by `%s` is not the one whose time is set to 0 (the write must be %s[0].time = 0 on the stored list)' % (cont.attr, norm_text(st), norm_text(cont)),
              construct='%s[0].time = 0; del %s[1:]' % (cont.attr, cont.attr))
+      # "explicit at time zero" holds for one stored element as well: the zeroing runs whenever the list is non-empty,
+      # i.e. the only enclosing branch condition on the path to it is the non-emptiness of that list
+      if zero:
+        extra = [t for (t, pol) in U.enclosing_tests(fi.node, zero[0]) if not (pol and norm_text(t) == norm_text(cont))]
+        ctx.ob('FRAME/single-at-zero', fi, zero[0], not extra, 'the kept %s element is moved to time 0 whenever there is one' % cont.attr if not extra else
+               'the time of the kept %s element is set to 0 only under the further condition %s: a single element at a later time stays where it is' % (
+                   cont.attr, ', '.join(norm_text(t) for t in extra)),
+               construct='%s[0].time = 0 whenever %s is non-empty' % (cont.attr, cont.attr), definite=True)
   for f in ('tempos', 'time_signatures'):
     if f not in seen:
       ctx.ob('FRAME/single-at-zero', fi, fi.node, False, 'quantize_note_sequence no longer reduces %s to its first stored element' % f, construct='%s[0].time = 0; del %s[1:]' % (f, f))
